@@ -448,7 +448,10 @@ func (s *mediaSpace) Build(d []int) *Case {
 }
 
 // Master playlists: every sequence of 1..maxLen entries from V (EXT-X-STREAM-INF + URI line),
-// I (EXT-X-I-FRAME-STREAM-INF), A (EXT-X-MEDIA TYPE=AUDIO with URI), S (TYPE=SUBTITLES with URI);
+// I (EXT-X-I-FRAME-STREAM-INF), A (EXT-X-MEDIA TYPE=AUDIO with URI), S (TYPE=SUBTITLES with URI),
+// W (a further EXT-X-STREAM-INF entry for the URI of the first variant of the document - the usual way
+// of offering one video rendition with several audio/subtitle groups), B (an audio rendition of the
+// group "aud2", which only the W entries name);
 // a rendition needs a variant to belong to, so sequences with A/S but no V are not generated.
 // Every V names the groups of the renditions present in the document.
 type masterSpace struct {
@@ -460,11 +463,11 @@ func newMasterSpace(maxLen int) *masterSpace {
 	seqs := []string{}
 	var rec func(p string)
 	rec = func(p string) {
-		if len(p) > 0 && (strings.Contains(p, "V") || !strings.ContainsAny(p, "AS")) {
+		if len(p) > 0 && (strings.ContainsAny(p, "VW") || !strings.ContainsAny(p, "AS")) && masterBsOwned(p) {
 			seqs = append(seqs, p)
 		}
 		if len(p) < maxLen {
-			for _, c := range "VIAS" {
+			for _, c := range "VIASWB" {
 				rec(p + string(c))
 			}
 		}
@@ -480,6 +483,26 @@ func newMasterSpace(maxLen int) *masterSpace {
 		handover,
 	}}
 }
+// masterBsOwned: every B (a rendition of the group that only repeated-variant entries name) is
+// followed by such an entry, i.e. a W that has a variant before it.
+func masterBsOwned(p string) bool {
+	for i, c := range p {
+		if c != 'B' {
+			continue
+		}
+		ok := false
+		for j := i + 1; j < len(p); j++ {
+			if p[j] == 'W' && strings.ContainsAny(p[:j], "VW") {
+				ok = true
+			}
+		}
+		if !ok {
+			return false
+		}
+	}
+	return true
+}
+
 func (s *masterSpace) Name() string     { return "m3u8-master" }
 func (s *masterSpace) Valid([]int) bool { return true }
 func (s *masterSpace) Kind() string     { return "m3u8" }
@@ -495,10 +518,29 @@ func (s *masterSpace) Build(d []int) *Case {
 	}
 	l := []string{"#EXTM3U", "#EXT-X-VERSION:4"}
 	var planted []Planted
+	firstV := -1
 	for i, e := range seq {
 		var p Planted
+		if e == 'W' && firstV < 0 {
+			e = 'V'
+		}
 		switch e {
+		case 'W':
+			p = m3uURI(d[3], firstV, fmt.Sprintf("v%d.m3u8", firstV))
+			g2 := strings.Replace(groups, `,AUDIO="aud"`, "", 1)
+			if strings.Contains(seq, "B") {
+				g2 += `,AUDIO="aud2"`
+			} else {
+				g2 = groups
+			}
+			l = append(l, fmt.Sprintf(`#EXT-X-STREAM-INF:BANDWIDTH=%d,CODECS="avc1.4d401f,ac-3",RESOLUTION=640x360%s`, 800000+i, g2), p.Ref)
+		case 'B':
+			p = m3uURI(d[3], i, fmt.Sprintf("audio2-%d.m3u8", i))
+			l = append(l, fmt.Sprintf(`#EXT-X-MEDIA:TYPE=AUDIO,GROUP-ID="aud2",NAME="b%d",DEFAULT=NO,URI="%s"`, i, p.Ref))
 		case 'V':
+			if firstV < 0 {
+				firstV = i
+			}
 			p = m3uURI(d[3], i, fmt.Sprintf("v%d.m3u8", i))
 			l = append(l, fmt.Sprintf(`#EXT-X-STREAM-INF:BANDWIDTH=%d,CODECS="avc1.4d401f,mp4a.40.2",RESOLUTION=640x360%s`, 800000+i, groups), p.Ref)
 		case 'I':
